@@ -1,38 +1,11 @@
 ---------------------------- MODULE MC_Lifecycle ----------------------------
-(* Behaviour export of FzfLifecycle for the E binding (Gen_Lifecycle.cfg, -simulate): a behaviour = the steps of   *)
-(* one life of fzf up to its exit, each step one a driver can bring about from outside, together with what the     *)
-(* specification predicts: the tracked mode changes a terminal receives, in order, and what is left afterwards.    *)
-(* (The exhaustive configurations MC_Lifecycle*.cfg check FzfLifecycle itself.)                                     *)
-EXTENDS FzfLifecycle, Json
+(* Constant sets for the exhaustive configurations of FzfLifecycle (MC_Lifecycle*.cfg): exit-at-any-moment closure  *)
+(* on the model.                                                                                                    *)
+EXTENDS FzfLifecycle
 
-VARIABLES hist, ops
-gvars == <<vars, hist, ops>>
-
-GenHows == {"accept", "abort", "print-query", "SIGINT", "SIGTERM"}
-MaxSteps == 9
-Step(label) == hist' = Append(hist, label)
-
-GInit == Init /\ hist = <<>> /\ ops = <<>>
-GStep == \/ RInit /\ Step([a |-> "init"])
-         \/ Flush /\ UNCHANGED hist
-         \/ \E k \in Kinds, n \in TempCounts : StartChild(k, n) /\ Step([a |-> "start", k |-> k, n |-> n])
-         \/ BgPause /\ Step([a |-> "bgpause"])
-         \/ \E k \in Kinds : ChildExit(k) /\ Step([a |-> "end", k |-> k])
-         \/ \E t \in temps : RemoveTemp(t) /\ UNCHANGED hist
-         \/ Suspend /\ Step([a |-> "suspend"])
-         \/ Continue /\ Step([a |-> "continue"])
-         \/ ToggleCursor /\ Step([a |-> "cursor"])
-         \* one exit request per life, asked for when fzf is up; a SIGINT is only sent when it is not dropped
-         \/ \E h \in GenHows : /\ pending = {} /\ phase \notin {"start", "stopped"} /\ ~(h = "SIGINT" /\ phase \in Executing)
-                               /\ (phase \in Executing => h \in Signals)
-                               /\ RequestExit(h) /\ pending' = {h} /\ Step([a |-> "exit", how |-> h])
-         \/ \E h \in ExitHows : ExitVia(h) /\ UNCHANGED hist
-GNext == GStep /\ ops' = ops \o out'
-GBound == Len(hist) <= MaxSteps
-
-Emit == phase = "exited" =>
-          PrintT(<<"CASE", ToJson([cfg |-> cfg, steps |-> hist, ops |-> ops, how |-> how, mouse |-> mouseOn,
-                                   statuses |-> AllowedStatus(how), restored |-> RestoredScr(scr, cfg), alt |-> scr.alt,
-                                   tio |-> tio, children |-> Cardinality(children), temps |-> Cardinality(temps),
-                                   listener |-> listener])>>)
+AllCfgs == Cfgs
+ListenCfgs == {c \in Cfgs : c.listen}
+FewCfgs == {c \in Cfgs : c.listen /\ c.clear}
+AllHows == ExitHows
+FewHows == {"accept", "SIGINT", "SIGTERM"}
 =============================================================================
